@@ -421,7 +421,7 @@ class Zeroconf(QuietLogger):
         for i in range(_REGISTER_BROADCASTS):
             if i != 0:
                 await asyncio.sleep(millis_to_seconds(interval))
-                if ttl != 0 and self.registry.async_get_info_name(info.name) is not info:
+                if ttl != 0 and self.registry.async_get_info_name(info.key) is not info:
                     # Withdrawn or replaced while we slept: announcing it again
                     # would bring it back after its goodbyes
                     return
